@@ -65,3 +65,10 @@ Theorem C01_semicolon_kept_where_the_next_statement_would_be_absorbed : forall s
   SemiRule.check_stmt_requires_semicolon s (Some (n, semi)) = true.
 Proof. exact SemicolonProof.semicolon_kept_where_needed. Qed.
 Print Assumptions C01_semicolon_kept_where_the_next_statement_would_be_absorbed.
+
+(* (d) L0 - the whole-formatter model on a fragment of Lua 5.1 (Fmt0.v), tied to the binary byte for byte on every run:
+   no expression it prints has a unary minus applied to something that starts with a minus sign *)
+From SV Require Fmt0 Fmt0Proof.
+Theorem C01_L0_no_double_minus : forall e c, Expr.can (Fmt0.shape e) = true -> Expr.no_double_minus (Fmt0.shape (Fmt0.nexp c e)) = true.
+Proof. exact Fmt0Proof.nexp_no_double_minus. Qed.
+Print Assumptions C01_L0_no_double_minus.
